@@ -1866,6 +1866,12 @@ impl DtlsInner {
                             let _ = self.conn.send(&buf).await;
                         }
                     }
+                    // Publish the closure: watchers (e.g. the PeerConnection's
+                    // transport start-up, which otherwise waits for a state
+                    // change that never comes) must see a closed transport,
+                    // not one that is still `Handshaking` or `Connected`.
+                    *self.state.lock() = DtlsState::Closed;
+                    let _ = self.state_tx.send(DtlsState::Closed);
                     return Ok(());
                 }
                 // Handshake timeout — abort if the peer never responds.
